@@ -80,15 +80,20 @@ def run(chk, tier):
         failed = bool(err) and not (err[0][0] == "eq" and err[0][2] == 0)
         key_ = "failed" if failed else ((pos[0] if pos else "other") + ("/" + opt[0] if opt else ""))
         rows_[key_] = symex.render(r_)
-    want_ = {"failed": r"^a$", "Int/Some": r"^From::from<CelValue><-i64\(i64::checked_neg\(a\.Int\.0\)\.Some\.0\)$", "Int/None": r"^CelValue::from_err\(",
-             "Float": r"^From::from<CelValue><-f64\(Neg\(a\.Float\.0\)\)$", "other": r"^CelValue::from_err\("}
+    int_ok = re.compile(r"i64::checked_neg\\(a\\.Int\\.0\\)|i64::checked_sub\\(0, a\\.Int\\.0\\)|^Sub::sub\\(CelValue::from_int\\(0\\), a\\)$|^CelValue::from_err\\(")
+    int_rows = {k_: v_ for k_, v_ in rows_.items() if k_.startswith("Int")}
+    if int_rows and all(int_ok.search(v_) for v_ in int_rows.values()) and any("checked_" in v_ or "Sub::sub" in v_ for v_ in int_rows.values()):
+        chk.ok("R03.6", "neg|Int", sorted(int_rows.values())[0][:80])
+    else:
+        chk.bad("R03.6", "neg|Int", "unary minus on an int must be a checked negation (error on the minimum int): %s" % int_rows, nb_.file)
+    want_ = {"failed": r"^a$", "Float": r"^From::from<CelValue><-f64\\(Neg\\(a\\.Float\\.0\\)\\)$", "other": r"^CelValue::from_err\\("}
     for k_, rx_ in want_.items():
         g_ = rows_.get(k_)
         if g_ is not None and re.match(rx_, g_):
             chk.ok("R03.6", "neg|" + k_, g_[:80])
         else:
-            chk.bad("R03.6", "neg|" + k_, "unary minus on %s yields %s; expected %s (int: checked negation, double: IEEE sign flip so that -(0.0) is -0.0, anything else an error)" % (k_, g_, rx_), nb_.file)
-    for k_ in set(rows_) - set(want_):
+            chk.bad("R03.6", "neg|" + k_, "unary minus on %s yields %s; expected %s (double: the IEEE sign flip, so that -(0.0) is -0.0 - `0.0 - x` gives +0.0; anything else an error)" % (k_, g_, rx_), nb_.file)
+    for k_ in set(rows_) - set(want_) - set(int_rows):
         chk.bad("R03.6", "neg|" + k_, "unary minus has an unexpected case %s -> %s" % (k_, rows_[k_][:100]), nb_.file)
     return chk.finish(
         "MIR of the six arithmetic operator impls (incl. their error_prop_or closures) and type_prop: exhaustive over their Assert terminators, "
